@@ -33,8 +33,8 @@ CHECKS = {
         "(type, text) list; unsat after blocking = the listed class tuples are the complete set of failures inside the bound. The space decision is tabulated "
         "from the real tokfmt (22,500 pairs, 12,000 triples) each run, so a change to the table, the threshold or the loop changes the encoding.",
         "Bound: quick 2 tokens <=4 code points and 3 tokens <=3; thorough 2 tokens <=6, 3 tokens <=5, 4 tokens <=4, 5 tokens <=5. Known findings (D2 families) are matched by class tuple "
-        "and still replayed. Two premises of the analysis are decided by CrossHair on the real code: every TokenStream reader hands out stream tokens only (all raw token sequences <=4 / 6 over a stub lexer), and every Token "
-        "exposed in a result carries the type the lexer gives its text (26 value positions x 85 expressions + decltype / sizeof... / pragma sources). Trusted: translator (validated every run), z3.",
+        "and still replayed. Two premises of the analysis are decided by CrossHair on the real code: every TokenStream reader hands out stream tokens only (all raw token sequences <=4 / 6 over a stub lexer), and every token list "
+        "exposed in a result carries the types the lexer gives its texts - a deviating type is reported when the formatted list does not lex back (26 value positions x 85 expressions + decltype / sizeof... / pragma sources). Trusted: translator (validated every run), z3.",
         "DESIGN.md 3/C16",
     ),
     "C08": (
